@@ -20,7 +20,8 @@ ChainStep ==
        /\ \E t \in TxIds : Announce(t)
 
 CONSTANT Crashes,  \* TRUE: Crash / Restart / RestartCrash enabled (C06)
-         Lifecycle \* TRUE: Import / Remove and the background worker enabled (C07, C08)
+         Lifecycle,\* TRUE: Import / Remove and the background worker enabled (C07, C08)
+         Faults    \* TRUE: storage faults enabled (C18)
 
 Next ==
     \/ up /\ ChainStep /\ UNCHANGED followerVars      \* the node runs only while the process is up
@@ -28,6 +29,7 @@ Next ==
     \/ HandleTx
     \/ Lifecycle /\ \E x \in Wallets : Import(x) \/ Remove(x)
     \/ Lifecycle /\ (ImportStep \/ RemoveStep)
+    \/ Faults /\ (HandleBlockFault \/ HandleTxFault \/ WorkerStepFault)
     \/ Crashes /\ Crash
     \/ Crashes /\ Restart
     \/ Crashes /\ \E k \in 1..MaxBlocks : RestartCrash(k)
